@@ -98,7 +98,8 @@ class Game(AsyncMode):
 
             if self.slam_tilted or self.player.ball >= self.balls_per_game and self.player.number == self.num_players:
                 self.ending = True
-            else:
+            elif not self.ending:
+                # do not make another player the current one when the game was ended manually. nobody would be told
                 await self._rotate_players()
 
         await self._end_game()
